@@ -21,6 +21,9 @@ pub struct Spec {
     pub gt_b: Vec<bool>,
     pub slow_a: bool,
     pub slow_b: bool,
+    /// per-block spacing in heartbeats (overrides slow_*): burn-fee profile inside a branch
+    pub sp_a: Option<Vec<u64>>,
+    pub sp_b: Option<Vec<u64>>,
 }
 
 pub struct Fork {
@@ -56,14 +59,16 @@ pub fn build(spec: &Spec) -> Result<Fork, String> {
     let mut aa = vec![];
     let mut p = f;
     for i in 0..spec.a {
-        let b = child(&mut w, p, spec.gt_a[i], if spec.slow_a { 5 } else { 2 }, 10 + i as u64, &format!("A{}", i + 1))?;
+        let sp = spec.sp_a.as_ref().map(|v| v[i]).unwrap_or(if spec.slow_a { 5 } else { 2 });
+        let b = child(&mut w, p, spec.gt_a[i], sp, 10 + i as u64, &format!("A{}", i + 1))?;
         aa.push(b);
         p = b;
     }
     let mut bb = vec![];
     let mut p = f;
     for i in 0..spec.b {
-        let b = child(&mut w, p, spec.gt_b[i], if spec.slow_b { 5 } else { 2 }, 20 + i as u64, &format!("B{}", i + 1))?;
+        let sp = spec.sp_b.as_ref().map(|v| v[i]).unwrap_or(if spec.slow_b { 5 } else { 2 });
+        let b = child(&mut w, p, spec.gt_b[i], sp, 20 + i as u64, &format!("B{}", i + 1))?;
         bb.push(b);
         p = b;
     }
@@ -143,7 +148,7 @@ fn seg_bf(w: &World, from_excl: usize, to: usize) -> u128 {
 fn run_order(fk: &Fork, order: &[usize], orphan_swap: Option<usize>, spec: &Spec, rep: &mut Report, seen: &mut BTreeSet<Hash>) {
     let w = &fk.w;
     let mut n = LedgerNode::new(key(9), w.cfg.clone());
-    let ctx = json!({"stem_gt": spec.stem_gt, "gt_a": spec.gt_a, "gt_b": spec.gt_b, "slow_a": spec.slow_a, "slow_b": spec.slow_b, "order": order, "orphan_swap": orphan_swap});
+    let ctx = json!({"stem_gt": spec.stem_gt, "gt_a": spec.gt_a, "gt_b": spec.gt_b, "slow_a": spec.slow_a, "slow_b": spec.slow_b, "spacing_a": spec.sp_a, "spacing_b": spec.sp_b, "order": order, "orphan_swap": orphan_swap});
     for &i in fk.stem.iter() {
         match n.add_block_bytes(&w.blocks[i].bytes) {
             Outcome::Done(AddRes::AddedLongest) => {}
@@ -297,10 +302,22 @@ pub fn main(tier: Tier, replay: Option<String>) -> i32 {
                             if a == 0 && sa {
                                 continue;
                             }
-                            specs.push(Spec { stem_gt: st.clone(), a, b, gt_a: ga.clone(), gt_b: gb.clone(), slow_a: sa, slow_b: sb });
+                            specs.push(Spec { stem_gt: st.clone(), a, b, gt_a: ga.clone(), gt_b: gb.clone(), slow_a: sa, slow_b: sb, sp_a: None, sp_b: None });
                         }
                     }
                 }
+            }
+        }
+    }
+    // weight profiles inside the branches: a two-block segment against a three-block candidate,
+    // every spacing pattern over {2, 5} heartbeats on both (the candidate can be lighter than the
+    // segment yet heavier than its first block, etc.)
+    for st in [vec![], vec![true, false]] {
+        for pa in 0..4u32 {
+            for pb in 0..8u32 {
+                let sp_a: Vec<u64> = (0..2).map(|i| if pa >> i & 1 == 1 { 5 } else { 2 }).collect();
+                let sp_b: Vec<u64> = (0..3).map(|i| if pb >> i & 1 == 1 { 5 } else { 2 }).collect();
+                specs.push(Spec { stem_gt: st.clone(), a: 2, b: 3, gt_a: vec![true, true], gt_b: vec![true, false, true], slow_a: false, slow_b: false, sp_a: Some(sp_a), sp_b: Some(sp_b) });
             }
         }
     }
